@@ -55,6 +55,7 @@ def main():
     ap.add_argument('--done', default='', help='comma separated result files whose mutants are skipped')
     a = ap.parse_args()
     files = [f for f in a.files.split(',') if f] or list(MAP)
+    os.makedirs(os.path.join(V, '.work'), exist_ok=True)
     rc, _ = sh(['go', 'build', '-o', os.path.join(V, '.work', 'gomutate'), './cmd/gomutate'], cwd=os.path.join(V, 'harness'))
     assert rc == 0
     done = set()
